@@ -1717,18 +1717,44 @@ Proof.
       subst c1 c'. apply IH; [exact Hin|apply Hch; exact Hin].
 Qed.
 
+(* the tree win_close leaves behind (the queue purge, the drag-source reset, the restore
+   request and the expose do not touch it) *)
+Lemma set_drag_tree : forall st d b l c src, r_tree (set_drag st d b l c src) = r_tree st.
+Proof. reflexivity. Qed.
+
+Lemma win_close_tree : forall cfg st id,
+  r_tree (win_close cfg st id) =
+  match t_chain id (r_tree st) with
+  | Some (w :: p :: _) =>
+    t_update (clear_link id) (t_id p) (t_upd_kids (kids_remove id) (t_id p) (r_tree st))
+  | _ => r_tree st
+  end.
+Proof.
+  intros cfg st id. unfold win_close.
+  destruct (t_chain id (r_tree st)) as [[|w [|p rest]]|]; try reflexivity.
+  cbn zeta.
+  match goal with |- r_tree (if ?b then win_expose ?s _ _ else ?s) = _ =>
+    assert (Ht : r_tree s = t_update (clear_link id) (t_id p)
+                              (t_upd_kids (kids_remove id) (t_id p) (r_tree st)));
+    [|destruct b; [rewrite win_expose_tree|]; exact Ht]
+  end.
+  match goal with |- r_tree (if ?b then request_restore ?s else ?s) = _ =>
+    assert (Hs : r_tree s = t_update (clear_link id) (t_id p)
+                              (t_upd_kids (kids_remove id) (t_id p) (r_tree st)));
+    [|destruct b; [rewrite request_restore_tree|]; exact Hs]
+  end.
+  match goal with |- r_tree (match ?d with Some _ => _ | None => _ end) = _ =>
+    destruct d as [src|]; [|reflexivity]
+  end.
+  match goal with |- r_tree (if ?b then _ else _) = _ => destruct b end; reflexivity.
+Qed.
+
 Theorem wf_focus_win_close : forall cfg st id,
   wf_focus (r_tree st) -> wf_focus (r_tree (win_close cfg st id)).
 Proof.
-  intros cfg st id Hwf. unfold win_close.
+  intros cfg st id Hwf. rewrite win_close_tree.
   destruct (t_chain id (r_tree st)) as [[|w [|p rest]]|]; try exact Hwf.
-  cbn zeta.
-  match goal with |- wf_focus (r_tree (if ?b then win_expose ?s _ _ else ?s)) =>
-    assert (Ht : r_tree s = t_update (clear_link id) (t_id p)
-                              (t_upd_kids (kids_remove id) (t_id p) (r_tree st)));
-    [|destruct b; [rewrite win_expose_tree|]; rewrite Ht; apply close_tree_wf; exact Hwf]
-  end.
-  match goal with |- r_tree (if ?b then _ else _) = _ => destruct b end; reflexivity.
+  apply close_tree_wf. exact Hwf.
 Qed.
 
 (* --- more facts on chains and unique ids --- *)
@@ -2007,8 +2033,10 @@ Definition vshape (t : wtree) : wtree := t_map E_v t.
 Lemma lshape_vshape : forall t t', lshape t = lshape t' -> vshape t = vshape t'.
 Proof.
   intros t t' H. unfold vshape.
-  rewrite (t_map_ext E_v (fun i => E_v (E_l i))) by reflexivity.
-  rewrite <- !t_map_comp. unfold lshape in H. rewrite H. reflexivity.
+  rewrite (t_map_ext E_v (fun i => E_v (E_l i)) (fun _ => eq_refl) t).
+  rewrite (t_map_ext E_v (fun i => E_v (E_l i)) (fun _ => eq_refl) t').
+  rewrite <- (t_map_comp E_l E_v t), <- (t_map_comp E_l E_v t').
+  unfold lshape in H. rewrite H. reflexivity.
 Qed.
 
 Section Erasure.
@@ -2111,7 +2139,7 @@ Proof.
   pose proof (t_find_map E_v (fun _ => eq_refl) y T') as H2.
   fold (vshape T) in H1. fold (vshape T') in H2. rewrite H, H2, Hf in H1.
   destruct (t_find y T) as [s|]; [|discriminate]. cbn [option_map] in H1.
-  exists s. split; [reflexivity|]. inversion H1. reflexivity.
+  exists s. split; [reflexivity|]. inversion H1 as [H3]. symmetry. exact H3.
 Qed.
 
 Lemma vshape_node : forall s s', vshape s = vshape s' ->
@@ -2173,4 +2201,169 @@ Proof.
   - intros wn Hf Hv. rewrite (t_find_subtree _ _ Hb Hnd) in Hf. inversion Hf; subst wn.
     cbn [uplinked] in Hup. destruct Hup as [Hlink Hup'].
     apply (IH (Some b) Hall' Hup'). destruct r as [|b2 r']; [exact I|]. split; assumption.
+Qed.
+
+Lemma fg_wf : forall cfg chain child T T'' evs rs,
+  NoDup (t_ids T) -> wf_focus T -> cc chain child T ->
+  focus_gained cfg chain child T = (T'', evs, rs) ->
+  wf_focus T'' /\ vshape T'' = vshape T.
+Proof.
+  intros cfg. induction chain as [|w rest IH]; intros child T T'' evs rs Hnd Hwf Hcc Hfg.
+  - cbn [focus_gained] in Hfg. inversion Hfg; subst. split; [exact Hwf|reflexivity].
+  - cbn [focus_gained] in Hfg.
+    destruct (t_find w T) as [wn|] eqn:Efind; [|inversion Hfg; subst; split; [exact Hwf|reflexivity]].
+    cbn [cc] in Hcc. destruct Hcc as [Hc1 Hc2]. specialize (Hc2 wn Efind).
+    match type of Hfg with (match ?X with _ => _ end) = _ => destruct X as [tree1 ev1] eqn:E1 end.
+    assert (H1 : lshape tree1 = lshape T).
+    { destruct (w_fchild (t_info wn)) as [fc|].
+      - match type of E1 with (if ?c then _ else _) = _ => destruct c end.
+        + pose proof (t_at_E E_l focus_lost fc (focus_lost_E E_l E_l_focused) T) as Hta.
+          destruct (t_at focus_lost fc T) as [tr e]. cbn [fst] in Hta. inversion E1; subst. exact Hta.
+        + inversion E1; subst. reflexivity.
+      - inversion E1; subst. reflexivity. }
+    match type of Hfg with (match ?X with _ => _ end) = _ => destruct X as [tree1b ev1b] eqn:E1b end.
+    assert (H1b : lshape tree1b = lshape T).
+    { destruct child as [c|].
+      - match type of E1b with (if ?c then _ else _) = _ => destruct c end.
+        + inversion E1b; subst. unfold lshape. rewrite t_update_E; [exact H1|intro i; reflexivity].
+        + inversion E1b; subst. exact H1.
+      - inversion E1b; subst. exact H1. }
+    pose proof (wf_focus_lshape T tree1b (eq_sym H1b) Hwf) as Hwf1b.
+    pose proof (lshape_vshape _ _ H1b) as Hv1b.
+    match type of Hfg with (match ?X with _ => _ end) = _ => destruct X as [[tree2 ev2] rs2] eqn:E2 end.
+    assert (H2 : wf_focus tree2 /\ vshape tree2 = vshape T).
+    { destruct rest as [|p r].
+      - inversion E2; subst. split; assumption.
+      - destruct (w_vis (t_info wn)) eqn:Ev.
+        + destruct (IH (Some w) tree1b tree2 ev2 rs2) as [Hw2 Hv2].
+          * rewrite (vshape_ids _ _ Hv1b). exact Hnd.
+          * exact Hwf1b.
+          * eapply cc_transfer; [symmetry; exact Hv1b|exact (Hc2 eq_refl)].
+          * exact E2.
+          * split; [exact Hw2|rewrite Hv2; exact Hv1b].
+        + inversion E2; subst. split; assumption. }
+    destruct H2 as [Hwf2 Hv2].
+    inversion Hfg; subst T'' evs rs. clear Hfg.
+    match goal with |- wf_focus (t_update ?F _ _) /\ _ => set (Fn := F) end.
+    assert (HFid : forall i, w_id (Fn i) = w_id i) by (intro i; unfold Fn; destruct child; reflexivity).
+    assert (HFvis : forall i, w_vis (Fn i) = w_vis i) by (intro i; unfold Fn; destruct child; reflexivity).
+    split.
+    + replace (t_update Fn w tree2) with (t_map (fun i => if w_id i =? w then Fn i else i) tree2)
+        by (rewrite t_update_map; reflexivity).
+      apply wf_focus_map.
+      { intro i. cbn beta. destruct (w_id i =? w); [apply HFid|reflexivity]. }
+      assert (Hvis : forall x, w_vis (if w_id x =? w then Fn x else x) = w_vis x).
+      { intro x. destruct (w_id x =? w); [apply HFvis|reflexivity]. }
+      intros j cs Hs k Hk. cbn beta in Hk.
+      destruct (w_id j =? w) eqn:Ew.
+      * assert (Hck : child = Some k) by (unfold Fn in Hk; cbn [set_fchild w_fchild] in Hk; exact Hk).
+        pose proof (hvk_transfer T tree2 w k (eq_sym Hv2) (Hc1 k Hck)) as [wn2 [x [Hf2 [Hin [Hid Hv]]]]].
+        assert (Hnd2 : NoDup (t_ids tree2)) by (rewrite (vshape_ids _ _ Hv2); exact Hnd).
+        pose proof (t_find_subtree _ _ Hs Hnd2) as Hfs.
+        replace (t_id (Node j cs)) with w in Hfs by (unfold t_id; cbn [t_info]; lia).
+        rewrite Hf2 in Hfs. inversion Hfs; subst wn2. cbn [t_kids] in Hin.
+        exists x. split; [exact Hin|]. split; [exact Hid|]. rewrite Hvis. exact Hv.
+      * destruct (wf_focus_node _ _ _ _ Hwf2 Hs Hk) as [c [Hin [Hid Hv]]].
+        exists c. split; [exact Hin|]. split; [exact Hid|]. rewrite Hvis. exact Hv.
+    + rewrite <- Hv2. unfold vshape. apply t_update_E.
+      intro i. unfold Fn. destruct child; reflexivity.
+Qed.
+
+Theorem wf_focus_win_take_focus : forall cfg st w,
+  ids_unique (r_tree st) -> wf_focus (r_tree st) ->
+  wf_focus (r_tree (fst (win_take_focus cfg st w))).
+Proof.
+  intros cfg st w Hu Hwf. unfold ids_unique in Hu. unfold win_take_focus.
+  destruct (t_chain w (r_tree st)) as [chain|] eqn:Echain; [|exact Hwf].
+  destruct (focus_gained cfg (map t_id chain) None (r_tree st)) as [[tr ev] rs] eqn:Efg.
+  cbn [fst].
+  destruct (t_chain_facts _ _ _ Echain) as [Hup [Hall _]].
+  pose proof (cc_init (r_tree st) Hu chain None Hall Hup I) as Hcc. cbn [option_map] in Hcc.
+  destruct (fg_wf cfg _ _ _ _ _ _ Hu Hwf Hcc Efg) as [Hwf' _].
+  destruct rs; exact Hwf'.
+Qed.
+
+(* --- bonus: the same operations keep the ids unique (so the theorems above chain) --- *)
+
+Lemma t_update_ids : forall f z t, (forall i, w_id (f i) = w_id i) -> t_ids (t_update f z t) = t_ids t.
+Proof.
+  intros f z t Hf. rewrite t_update_map. apply t_map_ids.
+  intro i. destruct (w_id i =? z); [apply Hf|reflexivity].
+Qed.
+
+Theorem ids_unique_win_take_focus : forall cfg st w,
+  ids_unique (r_tree st) -> wf_focus (r_tree st) ->
+  ids_unique (r_tree (fst (win_take_focus cfg st w))).
+Proof.
+  intros cfg st w Hu Hwf. unfold ids_unique in *. unfold win_take_focus.
+  destruct (t_chain w (r_tree st)) as [chain|] eqn:Echain; [|exact Hu].
+  destruct (focus_gained cfg (map t_id chain) None (r_tree st)) as [[tr ev] rs] eqn:Efg.
+  cbn [fst].
+  destruct (t_chain_facts _ _ _ Echain) as [Hup [Hall _]].
+  pose proof (cc_init (r_tree st) Hu chain None Hall Hup I) as Hcc. cbn [option_map] in Hcc.
+  destruct (fg_wf cfg _ _ _ _ _ _ Hu Hwf Hcc Efg) as [_ Hv].
+  assert (Hids : t_ids tr = t_ids (r_tree st)) by (apply vshape_ids; exact Hv).
+  destruct rs; cbn [request_restore set_flags set_tree r_tree]; rewrite Hids; exact Hu.
+Qed.
+
+Theorem ids_unique_win_show : forall cfg st id,
+  ids_unique (r_tree st) -> ids_unique (r_tree (win_show cfg st id)).
+Proof.
+  intros cfg st id Hu. unfold ids_unique in *. unfold win_show.
+  destruct (t_chain id (r_tree st)) as [[|x [|p rest]]|]; try exact Hu; cbn zeta;
+    rewrite win_expose_tree;
+    repeat match goal with |- context [if ?b then _ else _] => destruct b end;
+    cbn [request_restore set_flags set_tree r_tree];
+    rewrite ?t_update_ids by (intro; reflexivity); exact Hu.
+Qed.
+
+Theorem ids_unique_win_hide : forall cfg st id,
+  ids_unique (r_tree st) -> ids_unique (r_tree (win_hide cfg st id)).
+Proof.
+  intros cfg st id Hu. unfold ids_unique in *. unfold win_hide.
+  destruct (t_chain id (r_tree st)) as [[|x [|p rest]]|]; try exact Hu; cbn zeta;
+    rewrite ?win_expose_tree;
+    repeat match goal with |- context [if ?b then request_restore _ else _] => destruct b end;
+    cbn [request_restore set_flags set_tree r_tree];
+    rewrite ?t_update_ids; try exact Hu;
+    intro j; try reflexivity; destruct (opt_eqb (w_fchild j) id); reflexivity.
+Qed.
+
+(* ------------------------------------------------------------------------------------ *)
+(* The hypotheses of C15_restore are needed                                              *)
+
+(* a link to a HIDDEN focused child (excluded by wf_focus): _do_restore stops at it and shows
+   its cursor, the specification hides the cursor *)
+Definition tree_hidden_link : wtree :=
+  Node (mkW 0 (mkRect 0 0 10 20) true false false false (Some 1) 0 0 1 true (-1))
+    [ Node (mkW 1 (mkRect 1 1 6 10) false false false true None 2 3 1 true (-1)) [] ].
+
+Example C15_restore_needs_wf_focus :
+  ids_unique tree_hidden_link /\ w_vis (t_info tree_hidden_link) = true /\
+  cursor_of (do_restore tree_hidden_link (term_new 10 20 pol_accept)) = Some (3, 4, 1) /\
+  cursor_spec tree_hidden_link = None.
+Proof.
+  split; [unfold ids_unique; cbn; repeat constructor; cbn; intuition discriminate|].
+  repeat split; vm_compute; reflexivity.
+Qed.
+
+(* duplicate ids (excluded by ids_unique): [owner] reports an id, and here the cell is owned
+   by a child of the focused window that carries the same id *)
+Definition tree_dup_ids : wtree :=
+  Node (mkW 0 (mkRect 0 0 10 20) true false false false (Some 1) 0 0 1 true (-1))
+    [ Node (mkW 1 (mkRect 1 1 6 10) true false false true None 2 3 1 true (-1))
+        [ Node (mkW 1 (mkRect 0 0 6 10) true false false false None 0 0 1 true (-1)) [] ] ].
+
+Example C15_restore_needs_ids_unique :
+  wf_focus tree_dup_ids /\
+  cursor_of (do_restore tree_dup_ids (term_new 10 20 pol_accept)) = None /\
+  cursor_spec tree_dup_ids = Some (3, 4, 1).
+Proof.
+  split.
+  - unfold tree_dup_ids. constructor.
+    + intros k Hk. cbn in Hk. inversion Hk; subst.
+      eexists. split; [left; reflexivity|]. split; reflexivity.
+    + constructor; [|constructor]. constructor; [intros k Hk; cbn in Hk; discriminate|].
+      constructor; [|constructor]. constructor; [intros k Hk; cbn in Hk; discriminate|constructor].
+  - split; vm_compute; reflexivity.
 Qed.
